@@ -334,7 +334,7 @@ class Check:
         except ValueError:
             return str(p)
 
-    def finish(self):
+    def finish(self, write=True):
         lines = []
         n_viol = 0
         known_sigs = {f["signature"]: f for f in self.known if f["status"] == "known" and f.get("signature")}
@@ -369,7 +369,8 @@ class Check:
             print(l)
         for l in lines:
             print(l)
-        self.write_evidence(n_viol)
+        if write:
+            self.write_evidence(n_viol)
         dt = time.time() - self.t0
         print(f"[{self.pid}] tier={self.tier} seed={self.seed} obligations={self.discharged}/{self.obligations} "
               f"cases={self.evaluations} distinct={len(self.keys)} disagreements={len(self.disagreements)} "
@@ -408,11 +409,17 @@ class Check:
         (EVID / f"{self.pid}.json").write_text(json.dumps(ev, indent=1, default=str, sort_keys=True))
 
 
-def run_check(chk: "Check", main):
+def run_check(chk: "Check", main, replay=None):
     """Wrap a harness main.  Harness/infrastructure errors exit 2 (never a verdict); an
     exception that escapes from /repo code is a broken correspondence (the model never
     raises there), reported through the normal channel."""
     try:
+        if chk.replay_path and replay is not None:
+            # `bin/check Cxx --replay <file>`: re-execute the recorded case only
+            chk.no_build = True
+            chk.build_and_audit()
+            replay(chk, json.loads(Path(chk.replay_path).read_text()))
+            chk.finish(write=False)
         main(chk)
         chk.finish()
     except SystemExit:
